@@ -119,10 +119,9 @@ theorem compile_ls_Ff : ∀ (fnOk : Bool) (self : String) (e : Expr), Ff fnOk se
     simp only [Bool.and_eq_true, Option.isNone_iff_eq_none, decide_eq_true_eq, Bool.not_eq_true',
       List.isEmpty_eq_false_iff] at he
     obtain ⟨⟨⟨⟨⟨hfnok, hrest⟩, hnd⟩, hps⟩, hbody⟩, hff⟩ := he
-    subst hrest
     obtain ⟨b, tl, g2, hb, _, hk2⟩ := compileBegin_total_Ff true "" body hbody hff isFn (anonCtx c gs)
-      (gsAlloc isFn gs s!"__anon{gs.fns.length}" ps) (anonCtx_funcname c gs)
-    rw [compile_fn_eq isFn c ps body gs g2 b tl hb] at hc
+      (gsAlloc isFn gs s!"__anon{gs.fns.length}" ps rest) (anonCtx_funcname c gs)
+    rw [compile_fn_eq isFn c ps rest body gs g2 b tl hb] at hc
     injection hc with hc
     subst hc
     exact ⟨hk.1.loopsLen, by lsin⟩
@@ -132,10 +131,9 @@ theorem compile_ls_Ff : ∀ (fnOk : Bool) (self : String) (e : Expr), Ff fnOk se
     simp only [Bool.and_eq_true, Option.isNone_iff_eq_none, bne_iff_ne, ne_eq, decide_eq_true_eq, Bool.not_eq_true',
       List.isEmpty_eq_false_iff] at he
     obtain ⟨⟨⟨⟨⟨⟨⟨hfnok, hrest⟩, hname⟩, hne⟩, hnd⟩, hps⟩, hbody⟩, hff⟩ := he
-    subst hrest
-    obtain ⟨b, tl, g2, hb, _, hk2⟩ := compileBegin_total_Ff true name body hbody hff isFn (bodyCtx c gs name ps body)
-      (gsAlloc isFn gs name ps) (bodyCtx_funcname c gs name ps body)
-    rw [compile_defn_eq isFn c name ps body gs g2 b tl hne hb] at hc
+    obtain ⟨b, tl, g2, hb, _, hk2⟩ := compileBegin_total_Ff true name body hbody hff isFn (bodyCtx c gs name ps rest body)
+      (gsAlloc isFn gs name ps rest) (bodyCtx_funcname c gs name ps rest body)
+    rw [compile_defn_eq isFn c name ps rest body gs g2 b tl hne hb] at hc
     injection hc with hc
     subst hc
     exact ⟨hk.1.loopsLen, by lsin⟩
